@@ -1071,6 +1071,8 @@ pub fn emit_module(d: &Decl) -> String {
         }
     }
     o.push_str("}\n");
+    // (the lifetime parameter is always called 'a: the derive macros name it so in the code they emit, and a declaration
+    // that calls it anything else does not compile - outside "every command enum the derive macros accept", see DESIGN 5.4)
     o
 }
 
